@@ -215,6 +215,7 @@ func propC13(c *Ctx) {
 	for li := range langVals {
 		valid[li] = strings.ReplaceAll(c.specSentence(int64(langVals[li]), c.randBytes(16)), "　", " ")
 	}
+	c.goMapPrimitives() // the map/sync.Once vocabulary of the translated Language.mapping vs real Go
 	vals := []int64{}
 	sent := []string{}
 	for li := range langVals {
